@@ -212,6 +212,8 @@ class RoleListener:
         self.cursor_fn = None
         self.handover = {}              # io role: field -> joined range at hand-over (inferred object invariant)
         self.inv = None                 # io role: object invariant assumed for a buffer with no remembered facts
+        self.full_shapes = []           # io role: field ranges of buffers handed to a worker after a load that returned FULL
+        self.mark_full = False          # io role: the invariant in use is the FULL shape; materialised buffers are marked
 
     # helpers
     def is_state(self, loc):
@@ -231,6 +233,7 @@ class RoleListener:
 
     # events
     def on_prestore(self, I, st, loc, val, node):
+        self.materialise(I, st, loc)
         if self.is_state(loc):
             fn = self.cur_fn(I)
             if fn is not None and fn.get('ctor') and fn.get('rec') == self.A.Mq:
@@ -318,10 +321,16 @@ class RoleListener:
                     st.comps[('fresh', idx)] = False
                 elif sv is not None and sv == {self.A.enum['INV']}:
                     st.comps[('fresh', idx)] = False
-        if self.role == 'io' and self.inv is not None and loc[0] == BUFS and len(loc[1]) >= 2:
+        self.materialise(I, st, loc)
+        self.buffer_access(I, st, loc, node, False)
+
+    def materialise(self, I, st, loc):
+        if self.role == 'io' and self.inv is not None and loc is not None and loc[0] == BUFS and len(loc[1]) >= 2:
             idx = loc[1][0]
+            if isinstance(idx, str):
+                return
             tk = (BUFS, (idx, self.A.Bq + '::total'))
-            if tk not in st.mem and not st.comps.get(('mat', idx)):
+            if not any(k[0] == BUFS and k[1][:1] == (idx,) and len(k[1]) == 2 and k[1][1] in self.inv for k in st.mem) and not st.comps.get(('mat', idx)):
                 # a buffer this role has no facts about is either freshly constructed or was handed over earlier
                 # and came back: the inferred object invariant holds, and cursor == total
                 for f, r in self.inv.items():
@@ -333,7 +342,9 @@ class RoleListener:
                     st.mem[(BUFS, (idx, f))] = sym(nm) if r[0] != r[1] else C(r[0])
                 if tk in st.mem and self.cursor:
                     st.mem[(BUFS, (idx, self.cursor))] = st.mem[tk]
-        self.buffer_access(I, st, loc, node, False)
+                if self.mark_full:
+                    st.comps[('matfull', idx)] = True
+
 
     def buffer_access(self, I, st, loc, node, is_write):
         if loc is None or loc[0] != BUFS or len(loc[1]) < 2:
@@ -382,6 +393,14 @@ class RoleListener:
                     if tot is not None:
                         st.mem[(BUFS, (idx, self.cursor))] = tot
                     # object invariant inference: remember what a handed-over buffer looks like
+                    cls_ = st.comps.pop('handclass', None)
+                    if cls_ == frozenset(['FULL']):
+                        shape = {}
+                        for f in keep:
+                            v = st.mem.get((BUFS, (idx, f)))
+                            shape[f] = rng(v, st.sym) if v is not None and is_int(v) else None
+                        if shape not in self.full_shapes:
+                            self.full_shapes.append(shape)
                     for f in keep:
                         v = st.mem.get((BUFS, (idx, f)))
                         r = rng(v, st.sym) if v is not None and is_int(v) else None
@@ -589,17 +608,19 @@ class PipelineAnalysis:
         rec.saw(I)
         return rl, wf, I, res, counters
 
-    def run_io(self, stable, own, ispadding, quiet):
+    def run_io(self, stable, own, ispadding, quiet, full_shape=None, report_k=True):
         A, rec = self.A, self.rec
         sumv, bufsz = self.consts()
         rl = RoleListener(A, rec, 'io', stable, own, quiet=quiet)
         rl.keep_on_handover = getattr(self, 'keep_on_handover', None)
         rl.cursor = getattr(self, 'cursor', None)
         rl.inv = getattr(self, 'io_inv', {}).get(ispadding)
+        if full_shape is not None:
+            rl.inv, rl.mark_full = full_shape, True
         mdl = dict(models.STD_MODELS)
         mdl['ungetc'] = m_ungetc_rem
         lst = [rl]
-        chk = ChunkRules(A, rec if not quiet else _Null(), ispadding, sumv, bufsz)
+        chk = ChunkRules(A, (rec if not quiet else _Null()) if full_shape is None else _Only(rec, ('R01.k',) if report_k else ()), ispadding, sumv, bufsz)
         lst.append(chk)
         I = interp.Interp(self.prog, listeners=lst, models=mdl)
         I.heap_fields = A.heap_fields
@@ -609,7 +630,7 @@ class PipelineAnalysis:
         st = initial_state(A, 'io', ispadding)
         res = I.run(A.io, st, this=P(BG, ()), args=[('opaque', 'printload')])
         rec.saw(I)
-        if A.live and not quiet:
+        if A.live and not quiet and full_shape is None:
             for s2, _ in res:
                 lv = I.load(s2, (A.live, ()))
                 rec.ob('R04.c', 'R04.c@%s::loop-ends-only-when-all-INV' % fkey(A.io), is_int(lv) and lv != TOP and compare('==', lv, C(0), s2.sym) is True, '%s:%s' % (A.io['file'], A.io['line']),
@@ -699,6 +720,44 @@ class PipelineAnalysis:
         self.io_runs = {}
         for pad in (True, False):
             self.io_runs[pad] = self.run_io(frozenset(stable_io), own_io, pad, quiet=False)
+        # R01.k: relational part of the buffer invariant - what a buffer looks like when it was handed over after a FULL load,
+        # and what the I/O role does with such a buffer when it comes back, in every group state it can meet by then
+        ctor0 = self.ctor_state()
+        keepf = self.keep_on_handover or ()
+
+        def join_shapes(shapes):
+            joined = {}
+            for sh in shapes:
+                for f_, r_ in sh.items():
+                    if f_ not in joined:
+                        joined[f_] = r_
+                    elif joined[f_] is not None and r_ is not None:
+                        joined[f_] = (min(joined[f_][0], r_[0]), max(joined[f_][1], r_[1]))
+                    else:
+                        joined[f_] = None
+            return joined
+        for pad in (True, False):
+            # the buffers that are loaded are fresh ones and ones that came back from a FULL load (no load follows a load that was
+            # not FULL: R04.e), so the shape of a FULL hand-over is the least fixpoint over exactly those two kinds
+            base = {f_: r_ for f_, r_ in ctor0.items() if f_ in keepf}
+            full = None
+            for it in range(6):
+                inv = join_shapes([base] + ([full] if full else []))
+                il_, _, _, _ = self.run_io(frozenset(stable_io), own_io, pad, quiet=True, full_shape=inv, report_k=False)
+                new_full = join_shapes(il_.full_shapes) if il_.full_shapes else None
+                if new_full == full:
+                    break
+                full = new_full
+            else:
+                full = None
+            if not full:
+                rec.ob('R01.k', 'R01.k@%s::full-chunk-exported-whole' % A.Bq, None, A.B['file'],
+                       '%s: the shape of a buffer handed over after a FULL load is not established (no such hand-over, or no fixpoint)' % ('encrypt' if pad else 'decrypt'))
+                continue
+            self.info['full_buffer_shape_' + ('encrypt' if pad else 'decrypt')] = {f_.split('::')[-1]: r_ for f_, r_ in full.items()}
+            n0 = len([o for o in rec.obls if o.rule == 'R01.k'])
+            self.run_io(frozenset(stable_io), own_io, pad, quiet=True, full_shape=full)
+            rec.count('R01.k exports of full buffers (%s)' % ('encrypt' if pad else 'decrypt'), len([o for o in rec.obls if o.rule == 'R01.k']) - n0, 1)
         # io guarantee used by the worker: READY => now == 0 and total >= 1
         for pad in (True, False):
             il = self.io_runs[pad][0]
@@ -848,6 +907,27 @@ class _Null:
         pass
 
 
+class _Only:
+    """Recorder view that lets the obligations of the named rules through and drops the rest."""
+
+    def __init__(self, rec, rules):
+        self.rec, self.rules = rec, rules
+
+    def ob(self, rule, *a, **k):
+        if rule in self.rules:
+            return self.rec.ob(rule, *a, **k)
+        return None
+
+    def count(self, *a, **k):
+        pass
+
+    def saw(self, *a, **k):
+        return self.rec.saw(*a, **k)
+
+    def broke(self, *a, **k):
+        pass
+
+
 class ChunkRules:
     """R01.a PAD, R01.c END-OF-BODY TABLE, R01.d UNPAD, R03.e SAME STORAGE, R04.e/R04.c; io role listener."""
 
@@ -923,6 +1003,12 @@ class ChunkRules:
                         'encrypt: exported %s bytes with now = %s blocks (whole chunk or 16*now)' % (show(size), show(now)))
         okroot = root == 'fout'
         self.rec.ob('R03.e', 'R03.e@%s::export-to-output' % fkey(fr.fn), okroot, nloc(node), 'chunk exported to stream %s' % (root,))
+        if st.comps.get(('matfull', idx)):
+            whole = is_int(size) and size != TOP and compare('==', size, C(self.sumv), st.sym) is True
+            self.rec.ob('R01.k', 'R01.k@%s::full-chunk-exported-whole' % fkey(fr.fn), whole, nloc(node),
+                        '%s: a buffer that was handed to its worker after a load that returned FULL comes back and is exported as %s bytes '
+                        '(must be the whole chunk, %d, whatever the state of the group by then)' % (self.mode, show(size), self.sumv),
+                        path=[str(x) for x in st.trace[-8:]])
 
     def on_prestore(self, I, st, loc, val, node):
         # R04.e: READY only after a non-NODATA load in this turn; INV otherwise
@@ -933,6 +1019,7 @@ class ChunkRules:
             return
         ns = setof(val)
         last = st.comps.pop('lastload', None)
+        st.comps['handclass'] = last
         E = self.A.enum
         if ns is not None and ns == {E['READY']}:
             ok = last is not None and last <= {'FULL', 'FINAL'}
